@@ -56,7 +56,7 @@ pub fn run(args: &[String]) -> i32 {
     let cases = arg(args, "--cases").expect("--cases");
     let out_path = arg(args, "--out").expect("--out");
     let texts_path = arg(args, "--texts");
-    let (contents, _) = Contents::load(arg(args, "--contents").unwrap_or("/verif/data/contents.json"));
+    let (contents, _) = Contents::load(&arg(args, "--contents").map(|s| s.to_string()).unwrap_or_else(crate::util::contents_default));
     let f = std::io::BufReader::new(std::fs::File::open(cases).expect("cases"));
     let mut texts = texts_path.map(|p| std::io::BufWriter::new(std::fs::File::create(p).expect("texts")));
     let mut evaluated = 0u64;
